@@ -168,7 +168,11 @@ CLAIMS = {
              "path), registry.get is the LEFT fold over the name-sorted files (with a kernel-checked witness that "
              "the merge is not associative), v2 expansion laws. Instance obligation by kernel evaluation: the Lean "
              "composition of the iban_registry files on disk equals the effective table of the live library; entry "
-             "counts of the bank files add up. Tied to the code by correspondence of merge_dicts, parse_v2 and "
+             "counts of the bank files add up; `live_typed_table_is_effective_document`: the typed country table on "
+             "which the obligations of all other properties are checked is, key by key as the code reads it "
+             "(`typed_entry_reads_document`, `typed_lookup_reads_document`), that effective document - so validation "
+             "and generation theorems are about the composition of the files on disk. The live package's lookups "
+             "are compared with the bank files read independently. Tied to the code by correspondence of merge_dicts, parse_v2 and "
              "registry.get (temporary directories, adversarial file names).",
         design="7 (C18)",
         technique="Lean 4 proof (mutual structural recursion/induction over JSON trees) + decide +kernel on the "
